@@ -321,7 +321,7 @@ impl Check for C19 {
         };
         // One history in 250 is also played to the shipped `lace watch` process (the closure
         // itself lives in the binary and runs nowhere else)
-        let real_watch = !stack && matches!(prelude, J::Null) && rng.chance(1, 125);
+        let real_watch = !stack && matches!(prelude, J::Null) && index % 300 == 5;
         let saves = rng.next_u64();
         J::obj().set("stack", stack).set("prelude", prelude).set("real_watch", real_watch).set("save_styles", format!("{:x}", saves)).set(
             "events",
@@ -453,7 +453,7 @@ impl Check for C19 {
         out
     }
     fn rule(&self) -> String {
-        "A history of 2..14 re-checks on one long-lived watcher thread. File versions derive from a generated valid program by mutation: lexer failure inserted at a random line, parser failure after k labels were recorded, duplicate label, undefined label (fails only in backpatch), emission-only failure (label reference beyond 9 bits), same labels at shifted addresses, removed line, changed origin, second .orig, stack mnemonics, added .break, added .stringz with a multi-byte character; or a fresh program. Event-stream faults: torn read (a character-boundary prefix of the new version, incl. the empty file) followed by the full version, duplicated events (same content re-checked 1-3 times), coalesced events (an intermediate version never seen), revert to an earlier version. For every re-check the watcher's rendered result (origin, every emitted word or emission error, statement spans, breakpoints; or the full diagnostic text) must equal the result of the same text on a fresh thread. One feature-off history in 125 (about 1 in 250 overall) is also played to the shipped `lace watch` process on a real directory (world B''): the file is rewritten version by version (up to five), the real notifications, debouncer and closure in main.rs do their work, and the report the process is left showing after each save must be the verdict of a fresh `lace check` process on the same text (paced by feedback; a mismatch or a missing report counts only if it repeats in a second run of the history). Non-trivial: at least 2 re-checks; distinct = distinct hash of the sequence of (version family, outcome) and of all rendered results.".into()
+        "A history of 2..14 re-checks on one long-lived watcher thread. File versions derive from a generated valid program by mutation: lexer failure inserted at a random line, parser failure after k labels were recorded, duplicate label, undefined label (fails only in backpatch), emission-only failure (label reference beyond 9 bits), same labels at shifted addresses, removed line, changed origin, second .orig, stack mnemonics, added .break, added .stringz with a multi-byte character; or a fresh program. Event-stream faults: torn read (a character-boundary prefix of the new version, incl. the empty file) followed by the full version, duplicated events (same content re-checked 1-3 times), coalesced events (an intermediate version never seen), revert to an earlier version. For every re-check the watcher's rendered result (origin, every emitted word or emission error, statement spans, breakpoints; or the full diagnostic text) must equal the result of the same text on a fresh thread. One history in 300 (those with the feature off and no prelude) is also played to the shipped `lace watch` process on a real directory (world B''): the file is rewritten version by version (up to five), the real notifications, debouncer and closure in main.rs do their work, and the report the process is left showing after each save must be the verdict of a fresh `lace check` process on the same text (paced by feedback; a mismatch or a missing report counts only if it repeats in a second run of the history). Non-trivial: at least 2 re-checks; distinct = distinct hash of the sequence of (version family, outcome) and of all rendered results.".into()
     }
     fn assumptions(&self) -> Vec<String> {
         vec![
@@ -593,7 +593,25 @@ fn real_watch(texts: &[String], scenario: &J, report: &mut Report, v: &mut Vec<V
     use crate::world_watch::run_watch;
     let styles = u64::from_str_radix(scenario.get_str("save_styles").unwrap_or("0"), 16).unwrap_or(0);
     // Wall-clock cost is half a second per version (the watcher's own debounce delay)
-    let texts: Vec<String> = texts.iter().take(5).cloned().collect();
+    let pin_mtime = styles & 1 == 1;
+    let texts: Vec<String> = if pin_mtime {
+        // Every version followed by a text of the same length (one letter of the first
+        // instruction changed), all with the same modification time
+        let mut out = Vec::new();
+        for t in texts.iter().take(3) {
+            out.push(t.clone());
+            if let Some(at) = t.find("    ").and_then(|p| t[p..].find(|c: char| c.is_ascii_lowercase()).map(|q| p + q)) {
+                let mut m = t.clone();
+                m.replace_range(at..at + 1, if &t[at..at + 1] == "q" { "z" } else { "q" });
+                out.push(m);
+            }
+        }
+        out.truncate(5);
+        report.hit("fault:same_length_versions_with_one_modification_time");
+        out
+    } else {
+        texts.iter().take(5).cloned().collect()
+    };
     // Saves are plain rewrites of the file. (A save by rename - a new file moved over the old
     // one, as many editors do - is not noticed by `lace watch` at all: the screen keeps the
     // verdict of the old text. That is a defect of the watcher, but not of what C19 states, which
@@ -601,13 +619,13 @@ fn real_watch(texts: &[String], scenario: &J, report: &mut Report, v: &mut Vec<V
     let _ = styles;
     let renames: Vec<bool> = vec![false; texts.len()];
     let scratch = Scratch::new("c19watch");
-    let mut run = run_watch(&scratch, &texts, &renames);
+    let mut run = run_watch(&scratch, &texts, &renames, pin_mtime);
     let differs = |run: &crate::world_watch::WatchRun| run.seen.iter().enumerate().any(|(i, s)| s.as_ref() != run.fresh.get(i));
     if run.spawn_error.is_none() && (run.died.is_some() || differs(&run)) {
         // Only a verdict if it repeats: this is the one place where the load of the machine and
         // the timing of notifications could show
         report.hit("probe:real_watch_repeated");
-        run = run_watch(&Scratch::new("c19watch"), &texts, &renames);
+        run = run_watch(&Scratch::new("c19watch"), &texts, &renames, pin_mtime);
     }
     report.hit("fault:real_watcher_process");
     report.count("processes", 1 + run.fresh.len() as u64);
